@@ -271,3 +271,41 @@ func VerifH19d() {
 	}
 	nd.Reach("H19d.end")
 }
+
+// VerifH19f: several records written inside ONE storage transaction, through the real Badger
+// manager on the library model (which, like the library, keeps a reference to the value slice of
+// Txn.Set until the transaction commits): every record decodes to exactly what was encoded.
+func VerifH19f() {
+	mgr, err := badger.New(nd.ScratchDir())
+	nd.Assert(err == nil, "H19f.open")
+	if err != nil {
+		return
+	}
+	r := New(mgr)
+	ctx := context.Background()
+	n := 2 + nd.Choice("records", 2)
+	cids := []string{"00112233-4455-6677-8899-aabbccddeef0", "00112233-4455-6677-8899-aabbccddeef1", "00112233-4455-6677-8899-aabbccddeef2"}
+	var fs []model.File
+	for i := 0; i < n; i++ {
+		fs = append(fs, model.File{Key: nd.SymString("key", nd.Choice("keylen", 3)), TxId: model.MainTxId, ContentId: cids[i], Seq: sequence.Seq(nd.U64("seq"))})
+	}
+	err = r.RunTransaction(ctx, func(ctx context.Context) error {
+		for _, f := range fs {
+			if err := r.Set(ctx, f); err != nil {
+				return err
+			}
+		}
+		return nil
+	})
+	nd.Assert(err == nil, "H19f.transaction-ok")
+	all, err := r.GetAll(ctx)
+	nd.Assert(err == nil && len(all) == n, "H19f.getall-count")
+	if err != nil || len(all) != n {
+		return
+	}
+	// GetAll returns the records in key order = content id order
+	for i := range fs {
+		nd.Assert(nd.And(all[i].Seq == fs[i].Seq, all[i].ContentId == fs[i].ContentId, nd.EqStr(all[i].Key, fs[i].Key), all[i].TxId == model.MainTxId), "H19f.records-of-one-transaction-round-trip")
+	}
+	nd.Reach("H19f.end")
+}
